@@ -5,13 +5,20 @@
             harness materialised and what the real loader did; check = the model's crash image of [target] is the
             one the harness described; prop = the model's image is exactly the old or exactly the new bytes
             (executable form of snapshot_atomic, evaluated on the recorded - possibly mutated - sequence). *)
+From Coq Require Import Uint63.
 From AM Require Export Base.Prelude Model.Nflog Model.FsCrash Model.Wire Model.Snapshot.
 
-Inductive img := IAbsent | IOld | INew | IPrefix (n : nat) | IOther (b : string).
+Inductive img := IAbsent | IOld | INew | IPrefix (n : nat) | IOther (b : list N).
 Inductive ldclass := LOld | LNew | LErr | LOther.
 Global Instance ldclass_eq_dec : EqDecision ldclass. Proof. solve_decision. Defined.
 
 Record point := mkPoint { p_k : nat; p_dir : nat; p_keep : list (nat * nat); p_img : img; p_load : ldclass }.
+
+(* ---- byte blobs in case files: 7 bytes per primitive-integer literal (Coq parses [..]%N literals far too slowly
+   for snapshot-sized blobs); only the correspondence evaluation uses this, never a theorem ---- *)
+Definition word_bytes (w : Uint63.int) : list N :=
+  map (fun k => Z.to_N (Uint63.to_Z (Uint63.land (Uint63.lsr w k) 255%uint63))) [48; 40; 32; 24; 16; 8; 0]%uint63.
+Definition ub (len : Z) (ws : list Uint63.int) : list N := take (Z.to_nat len) (flat_map word_bytes ws).
 
 (* ---- record literals as the harness writes them (numbers as Z) ---- *)
 Definition zs (l : list Z) : list N := map Z.to_N l.
@@ -27,15 +34,15 @@ Arguments LdPrefix {A} j.
 Arguments LdOk {A} l.
 
 Inductive case :=
-| COps (target tmp : string) (data : string) (recorded : list fsop)
-| CCrash (store : nat) (target : string) (old : option string) (new : string) (ops : list fsop) (pts : list point)
+| COps (target tmp : string) (data : list N) (recorded : list fsop)
+| CCrash (store : nat) (target : string) (old : option (list N)) (new : list N) (ops : list fsop) (pts : list point)
 (* bytes marshalled by protobuf-go and the records they hold, in file order; exact = the bytes were produced with
    deterministic (key-sorted) map order from records listed with sorted keys, so Wire.v must re-encode them
    byte for byte *)
-| CCodecN (bytes : string) (recs : list wmesh) (exact : bool)
-| CCodecS (bytes : string) (recs : list wmeshsil) (exact : bool)
-| CMutN (bytes : string) (l : list (mut * lres wmesh))
-| CMutS (bytes : string) (l : list (mut * lres wmeshsil)).
+| CCodecN (bytes : list N) (recs : list wmesh) (exact : bool)
+| CCodecS (bytes : list N) (recs : list wmeshsil) (exact : bool)
+| CMutN (bytes : list N) (l : list (mut * lres wmesh))
+| CMutS (bytes : list N) (l : list (mut * lres wmeshsil)).
 
 Fixpoint keep_of (l : list (nat * nat)) (i : nat) : nat :=
   match l with
@@ -43,11 +50,11 @@ Fixpoint keep_of (l : list (nat * nat)) (i : nat) : nat :=
   | (j, n) :: r => if Nat.eqb i j then n else keep_of r i
   end.
 
-Definition old_bytes (old : option string) : list N := match old with Some b => s2b b | None => [] end.
-Definition init_fs (target : string) (old : option string) : fs :=
-  match old with Some b => fs_with target (s2b b) | None => fs_empty end.
+Definition old_bytes (old : option (list N)) : list N := match old with Some b => b | None => [] end.
+Definition init_fs (target : string) (old : option (list N)) : fs :=
+  match old with Some b => fs_with target b | None => fs_empty end.
 
-Definition model_image (target : string) (old : option string) (ops : list fsop) (p : point) : option (list N) :=
+Definition model_image (target : string) (old : option (list N)) (ops : list fsop) (p : point) : option (list N) :=
   content (recover_after ops (p_k p) (mkChoice (p_dir p) (keep_of (p_keep p))) (init_fs target old)) target.
 
 Fixpoint bytes_eqb (a b : list N) : bool :=
@@ -72,20 +79,20 @@ Fixpoint ops_eqb (a b : list fsop) : bool :=
   | _, _ => false
   end.
 
-Definition img_ok (old : option string) (new : string) (m : option (list N)) (i : img) : bool :=
+Definition img_ok (old : option (list N)) (new : list N) (m : option (list N)) (i : img) : bool :=
   match i, m with
   | IAbsent, None => true
-  | IOld, Some b => match old with Some o => bytes_eqb b (s2b o) | None => false end
-  | INew, Some b => bytes_eqb b (s2b new)
-  | IPrefix n, Some b => bytes_eqb b (take n (s2b new))
-  | IOther x, Some b => bytes_eqb b (s2b x)
+  | IOld, Some b => match old with Some o => bytes_eqb b o | None => false end
+  | INew, Some b => bytes_eqb b new
+  | IPrefix n, Some b => bytes_eqb b (take n new)
+  | IOther x, Some b => bytes_eqb b x
   | _, _ => false
   end.
 
-Definition is_old_or_new (old : option string) (new : string) (m : option (list N)) : bool :=
+Definition is_old_or_new (old : option (list N)) (new : list N) (m : option (list N)) : bool :=
   match m with
   | None => match old with None => true | Some _ => false end
-  | Some b => match old with Some o => bytes_eqb b (s2b o) | None => false end || bytes_eqb b (s2b new)
+  | Some b => match old with Some o => bytes_eqb b o | None => false end || bytes_eqb b new
   end.
 
 (* ---- comparing decoded content: protobuf maps are compared as maps ---- *)
@@ -130,11 +137,11 @@ Definition set_equiv {A} (eqv : A -> A -> bool) (l1 l2 : list A) : bool :=
   Nat.eqb (length l1) (length l2) && forallb (fun x => existsb (eqv x) l2) l1.
 
 Definition codec_ok {A} (dec : list N -> res (list A)) (enc : list A -> list N) (eqv : A -> A -> bool)
-  (bytes : string) (recs : list A) (exact : bool) : bool :=
-  match dec (s2b bytes) with
+  (bytes : list N) (recs : list A) (exact : bool) : bool :=
+  match dec bytes with
   | Ok l => list_equiv eqv l recs
   | _ => false
-  end && (negb exact || bytes_eqb (enc recs) (s2b bytes)).
+  end && (negb exact || bytes_eqb (enc recs) bytes).
 
 Definition apply_mut (b : list N) (m : mut) : list N :=
   match m with MPrefix n => take n b | MFlip p v => <[p := Z.to_N v]> b end.
@@ -186,23 +193,23 @@ Definition load_class {A} (load : list N -> res (list (string * A))) (eqv : A ->
          | Ok st => if res_equiv eqv (Ok st) lo then LOld else if res_equiv eqv (Ok st) ln then LNew else LOther
          | _ => LErr
          end.
-Definition model_class (store : nat) (old : option string) (new : string) : option (list N) -> ldclass :=
+Definition model_class (store : nat) (old : option (list N)) (new : list N) : option (list N) -> ldclass :=
   match store with
-  | O => load_class nflog_load mesh_equiv (old_bytes old) (s2b new)
-  | _ => load_class silence_load meshsil_equiv (old_bytes old) (s2b new)
+  | O => load_class nflog_load mesh_equiv (old_bytes old) new
+  | _ => load_class silence_load meshsil_equiv (old_bytes old) new
   end.
 
 Definition check_case (c : case) : bool :=
   match c with
-  | COps target tmp data recorded => ops_eqb recorded (snapshot_ops tmp target (s2b data))
+  | COps target tmp data recorded => ops_eqb recorded (snapshot_ops tmp target data)
   | CCrash store target old new ops pts =>
       let cls := model_class store old new in
       forallb (fun p => let m := model_image target old ops p in
                         img_ok old new m (p_img p) && beq (cls m) (p_load p)) pts
   | CCodecN bytes recs exact => codec_ok decode_nflog encode_nflog mesh_equiv bytes recs exact
   | CCodecS bytes recs exact => codec_ok decode_silences encode_silences meshsil_equiv bytes recs exact
-  | CMutN bytes l => forallb (mut_ok nflog_load decode_nflog mesh_equiv (s2b bytes)) l
-  | CMutS bytes l => forallb (mut_ok silence_load decode_silences meshsil_equiv (s2b bytes)) l
+  | CMutN bytes l => forallb (mut_ok nflog_load decode_nflog mesh_equiv bytes) l
+  | CMutS bytes l => forallb (mut_ok silence_load decode_silences meshsil_equiv bytes) l
   end.
 
 Definition prop_case (c : case) : bool :=
@@ -211,15 +218,15 @@ Definition prop_case (c : case) : bool :=
   | CCrash _ target old new ops pts =>
       forallb (fun p => is_old_or_new old new (model_image target old ops p)) pts
   | CCodecN bytes _ _ =>  (* round trip on what was decoded *)
-      match decode_nflog (s2b bytes) with
+      match decode_nflog bytes with
       | Ok l => match decode_nflog (encode_nflog l) with Ok l' => beq l' l | _ => false end
       | _ => true end
   | CCodecS bytes _ _ =>
-      match decode_silences (s2b bytes) with
+      match decode_silences bytes with
       | Ok l => match decode_silences (encode_silences l) with Ok l' => beq l' l | _ => false end
       | _ => true end
-  | CMutN bytes l => forallb (fun mo => prefix_ok decode_nflog (s2b bytes) (fst mo)) l
-  | CMutS bytes l => forallb (fun mo => prefix_ok decode_silences (s2b bytes) (fst mo)) l
+  | CMutN bytes l => forallb (fun mo => prefix_ok decode_nflog bytes (fst mo)) l
+  | CMutS bytes l => forallb (fun mo => prefix_ok decode_silences bytes (fst mo)) l
   end.
 
 Inductive shown :=
@@ -228,13 +235,13 @@ Inductive shown :=
 | SMutN (l : list (res (list (string * wmesh)))) | SMutS (l : list (res (list (string * wmeshsil)))).
 Definition show_case (c : case) : shown :=
   match c with
-  | COps target tmp data _ => SOps (snapshot_ops tmp target (s2b data))
+  | COps target tmp data _ => SOps (snapshot_ops tmp target data)
   | CCrash store target old new ops pts =>
       let cls := model_class store old new in
       SImgs (map (fun p => let m := model_image target old ops p in
                            (match m with Some b => Some (length b) | None => None end, cls m)) pts)
-  | CCodecN bytes _ _ => SDecN (decode_nflog (s2b bytes))
-  | CCodecS bytes _ _ => SDecS (decode_silences (s2b bytes))
-  | CMutN bytes l => SMutN (map (fun mo => nflog_load (apply_mut (s2b bytes) (fst mo))) l)
-  | CMutS bytes l => SMutS (map (fun mo => silence_load (apply_mut (s2b bytes) (fst mo))) l)
+  | CCodecN bytes _ _ => SDecN (decode_nflog bytes)
+  | CCodecS bytes _ _ => SDecS (decode_silences bytes)
+  | CMutN bytes l => SMutN (map (fun mo => nflog_load (apply_mut bytes (fst mo))) l)
+  | CMutS bytes l => SMutS (map (fun mo => silence_load (apply_mut bytes (fst mo))) l)
   end.
